@@ -102,17 +102,17 @@ type EVMChainSpec struct {
 }
 
 type Config struct {
-	ChainID      string
-	Validators   []ValSpec
-	Users        map[*Account]sdk.Coins // extra balances (validators get theirs via ValidatorLiquid)
-	ValLiquid    int64                  // liquid ugrain per validator account
-	EVMChains    []EVMChainSpec
-	WithCompass  bool // put the compass ABI/bytecode into evm genesis
-	VotingPeriod time.Duration
-	StartTime    time.Time
-	UseLevelDB   bool
-	Home         string // if empty: $VERIF_TMP or a fresh dir under /verif/out/tmp
-	CaptureLog   bool
+	ChainID       string
+	Validators    []ValSpec
+	Users         map[*Account]sdk.Coins // extra balances (validators get theirs via ValidatorLiquid)
+	ValLiquid     int64                  // liquid ugrain per validator account
+	EVMChains     []EVMChainSpec
+	WithCompass   bool // put the compass ABI/bytecode into evm genesis
+	VotingPeriod  time.Duration
+	StartTime     time.Time
+	UseLevelDB    bool
+	Home          string // if empty: $VERIF_TMP or a fresh dir under /verif/out/tmp
+	CaptureLog    bool
 	MutateGenesis func(gs map[string]json.RawMessage, cdc Codec)
 }
 
@@ -125,16 +125,17 @@ type Codec interface {
 }
 
 type Chain struct {
-	App     *palomaapp.App
-	Cfg     Config
-	Height  int64 // last committed height
-	Time    time.Time
-	Log     *CaptureLogger
-	Home    string
-	db      dbm.DB
-	pending [][]byte
-	valByAddr map[string]*Account
+	App         *palomaapp.App
+	Cfg         Config
+	Height      int64 // last committed height
+	Time        time.Time
+	Log         *CaptureLogger
+	Home        string
+	db          dbm.DB
+	pending     [][]byte
+	valByAddr   map[string]*Account
 	LastAppHash []byte
+	extraHomes  []string
 }
 
 var setupOnce sync.Once
@@ -258,6 +259,11 @@ func (c *Chain) open() {
 
 // Restart re-creates the application over the same database (node restart at a block boundary).
 func (c *Chain) Restart() {
+	// The wasm VM of the previous instance keeps an exclusive lock on <home>/data/wasm for the
+	// lifetime of the process (a real node releases it by exiting). The chain state lives in c.db;
+	// the home directory only holds the wasm code cache, which is empty in these workloads.
+	c.extraHomes = append(c.extraHomes, c.Home)
+	c.Home = tmpHome()
 	c.open()
 }
 
@@ -266,6 +272,9 @@ func (c *Chain) Close() {
 		c.db.Close()
 	}
 	os.RemoveAll(c.Home)
+	for _, h := range c.extraHomes {
+		os.RemoveAll(h)
+	}
 }
 
 func (c *Chain) genesis() map[string]json.RawMessage {
@@ -300,16 +309,16 @@ func (c *Chain) genesis() map[string]json.RawMessage {
 		}
 		tokens := sdkmath.NewInt(v.Stake)
 		val := stakingtypes.Validator{
-			OperatorAddress: v.Acct.ValBech(),
-			ConsensusPubkey: pkAny,
-			Jailed:          false,
-			Status:          stakingtypes.Bonded,
-			Tokens:          tokens,
-			DelegatorShares: sdkmath.LegacyNewDecFromInt(tokens),
-			Description:     stakingtypes.Description{Moniker: v.Acct.Name},
-			UnbondingHeight: 0,
-			UnbondingTime:   time.Unix(0, 0).UTC(),
-			Commission:      stakingtypes.NewCommission(sdkmath.LegacyNewDecWithPrec(5, 2), sdkmath.LegacyOneDec(), sdkmath.LegacyNewDecWithPrec(1, 2)),
+			OperatorAddress:   v.Acct.ValBech(),
+			ConsensusPubkey:   pkAny,
+			Jailed:            false,
+			Status:            stakingtypes.Bonded,
+			Tokens:            tokens,
+			DelegatorShares:   sdkmath.LegacyNewDecFromInt(tokens),
+			Description:       stakingtypes.Description{Moniker: v.Acct.Name},
+			UnbondingHeight:   0,
+			UnbondingTime:     time.Unix(0, 0).UTC(),
+			Commission:        stakingtypes.NewCommission(sdkmath.LegacyNewDecWithPrec(5, 2), sdkmath.LegacyOneDec(), sdkmath.LegacyNewDecWithPrec(1, 2)),
 			MinSelfDelegation: sdkmath.OneInt(),
 		}
 		vals = append(vals, val)
@@ -538,10 +547,10 @@ func CoinFlow(evs []abci.Event, addr, denom string) (spent, received sdkmath.Int
 }
 
 type TxResult struct {
-	Code   uint32
-	Log    string
-	Events []abci.Event
-	Data   []byte
+	Code      uint32
+	Log       string
+	Events    []abci.Event
+	Data      []byte
 	Codespace string
 }
 
@@ -552,6 +561,8 @@ type BlockResult struct {
 	Txs     []TxResult
 	Events  []abci.Event
 	AppHash []byte
+	RawTxs  [][]byte
+	Time    time.Time
 	Panic   string // non-empty: FinalizeBlock panicked (stack included)
 	Err     error  // FinalizeBlock returned an error
 	Resp    *abci.ResponseFinalizeBlock
@@ -565,7 +576,7 @@ func (c *Chain) NextBlockAfter(dt time.Duration) (br *BlockResult) {
 	c.pending = nil
 	h := c.Height + 1
 	t := c.Time.Add(dt)
-	br = &BlockResult{Height: h}
+	br = &BlockResult{Height: h, RawTxs: txs, Time: t}
 	func() {
 		defer func() {
 			if e := recover(); e != nil {
